@@ -40,6 +40,7 @@ def gen_history(seed, tier, *, n_ops=(2, 6), genkw=None,
     deletable = [n["store"] for n in world["nodes"] if n.get("store") and n["store"] not in pure and n["store"] not in fed]
     ops = []
     weights = dict(run=4, fail=2, cut=2, update=2, delete=2, fresh=1, intr=1, bump=2)
+    future_done = [False]
     bumpable = [n["id"] for n in world["nodes"] if n["kind"] == "call" and n.get("store") and n["store"] in deletable]
     kinds = [k for k in allow for _ in range(weights[k])]
     for _ in range(rng.randrange(*n_ops)):
@@ -64,7 +65,11 @@ def gen_history(seed, tier, *, n_ops=(2, 6), genkw=None,
         elif k == "update" and pure:
             ops.append(dict(op="update", store=rng.choice(pure)))
         elif k == "delete" and deletable:
-            ops.append(dict(op="delete", store=rng.choice(deletable)))
+            if not future_done[0] and rng.random() < 0.12 and not world.get("file_stores"):
+                future_done[0] = True
+                ops.append(dict(op="future", store=rng.choice(deletable)))
+            else:
+                ops.append(dict(op="delete", store=rng.choice(deletable)))
         elif k == "fresh":
             if rng.random() < 0.25 and world["stores"]:
                 ops.append(dict(op="fresh_at", store=rng.choice(sorted(world["stores"]))))
